@@ -287,6 +287,26 @@ def rule_listed_dir(ctx):
     ctx.borrow(rule_support, {"C06.SUPPORT": "C08.REPLY"}, only=lambda fn: "wrap_with_container" in fn)
 
 
+def rule_codec(ctx):
+    p = ctx.p
+    ctx.rule("C08.CODEC", "both sides turn wire bytes into text and back with the one configured codec: every `.encode(...)` / `.decode(...)` in the client and the server "
+                          "passes `self.encoding` (a default-utf-8 or literal codec on one path only mangles non-ASCII names whenever another encoding is configured)")
+    n = 0
+    for mod, classes in (("server.py", ("Server",)), ("client.py", ("BaseClient", "Client"))):
+        for cn in classes:
+            for name, m in p.methods(cn).items():
+                for fx in [m] + p.nested_functions(m):
+                    for c in walk_no_nested(fx):
+                        if isinstance(c, ast.Call) and isinstance(c.func, ast.Attribute) and c.func.attr in ("encode", "decode"):
+                            enc = next((k.value for k in c.keywords if k.arg == "encoding"), c.args[0] if c.args else None)
+                            got = src(deep_expand(p, enc, fx)) if enc is not None else None
+                            n += 1
+                            ctx.ob("C08.CODEC", c, f"{p.qualname(fx)}: `{src(c)[:50]}` uses self.encoding", got == "self.encoding",
+                                   f"{p.qualname(fx)}: `{src(c)[:60]}` converts with {got or 'the default codec (utf-8)'} instead of the configured `self.encoding`: with any other "
+                                   "encoding configured on both sides, non-ASCII names on this path are mangled or undecodable", construct=f"codec:{p.qualname(fx)}:{c.func.attr}:{got}")
+    ctx.floor("C08.CODEC", 8, "encode/decode sites")
+
+
 def rule_prefix_names(ctx):
     from .c04 import rule_near
     ctx.rule("C08.PREFIX", "a name that merely starts with another name is a different object for every layer: the permission table matches whole path components "
@@ -294,4 +314,11 @@ def rule_prefix_names(ctx):
     ctx.borrow(rule_near, {"C04.NEAR": "C08.PREFIX"}, only=lambda fn: "is_parent" in fn)
 
 
-RULES = [rule_quote, rule_carry, rule_send, rule_sep, rule_shared_names, rule_listed_dir, rule_prefix_names]
+def rule_resolution(ctx):
+    from .c02 import rule_res
+    ctx.rule("C08.RES", "the server resolves a name component by component and treats only the exact component '..' specially: '...', '.x', 'a..b', names with backslashes "
+                        "are ordinary names (shared with C02.RES, the abstract interpretation of get_paths)")
+    ctx.borrow(rule_res, {"C02.RES": "C08.RES"})
+
+
+RULES = [rule_resolution, rule_codec, rule_quote, rule_carry, rule_send, rule_sep, rule_shared_names, rule_listed_dir, rule_prefix_names]
